@@ -1,5 +1,5 @@
 """C20 — The single-header distribution is exactly the amalgamation of the sources."""
-import difflib, json, os, re, shutil, subprocess, sys, tempfile
+import concurrent.futures, difflib, json, os, re, shutil, subprocess, sys, tempfile
 import vlib
 
 META = {
@@ -11,7 +11,9 @@ META = {
     'text': 'The property is an equality per state of the tree, so it is decided on every run for the current tree: (i) extracted '
             'amalgamator(src) = qtlogger.h, (ii) tools/gen_qtlogger.h.py(src) = qtlogger.h, (iii) (i) = (ii); the forall-content '
             '(Properties_C20.v) is about the generator model: every included file is emitted once, every resolved include is '
-            'emitted, no character outside include directives is dropped by the expansion.',
+            'emitted, no character outside include directives is dropped by the expansion. Because a byte-identical header can '
+            'still behave differently from the library build (once-only inclusion landing inside another feature\'s #ifdef), the '
+            'header alone and the library sources are also compiled under every single feature macro and must agree.',
     'note': 'Trusted: Coq 8.16.1 kernel, no axioms; extraction (ExtrOcamlBasic) + ocaml/drv_amalgam.ml (loads src/ into the '
             'abstract tree); python3 running tools/gen_qtlogger.h.py on a scratch copy; checks/c20.py (byte comparison, diff). '
             'The model is hand-written from the generator (regexes, os.path.join/abspath/exists, glob, sorted): its tie to the '
@@ -89,6 +91,108 @@ def first_hunk(expected, actual, exp_name, act_name):
     return {'line': i + 1, 'in_block_of_source_file': stack[-1] if stack else None,
             exp_name: a[i + i1:i + max(i2, i1 + 1)][:8], act_name: b[i + j1:i + max(j2, j1 + 1)][:8],
             'sizes': {exp_name: len(expected), act_name: len(actual)}}
+
+
+# ---- "header-only users get precisely the behaviour of the library build": same verdict of the compiler
+#      under every single feature macro the sources test -------------------------------------------------
+NOT_FEATURES = {'QTLOGGER_DECL_SPEC', 'QTLOGGER_LIBRARY', 'QTLOGGER_STATIC', 'QTLOGGER_EXPORT'}
+
+
+def feature_macros(repo):
+    """QTLOGGER_* macros tested by preprocessor conditionals of the sources -> {macro: [files mentioning it]}"""
+    root = os.path.join(repo, 'src', 'qtlogger')
+    found = {}
+    for d, _, fs in os.walk(root):
+        for f in fs:
+            if not f.endswith(('.h', '.cpp')):
+                continue
+            p = os.path.join(d, f)
+            txt = open(p, encoding='utf-8', errors='replace').read()
+            for line in re.findall(r'^[ \t]*#[ \t]*(?:if|ifdef|ifndef|elif)\b.*$', txt, re.M):
+                for m in re.findall(r'QTLOGGER_[A-Z0-9_]+', line):
+                    if m not in NOT_FEATURES:
+                        found.setdefault(m, set())
+            for m in found:
+                if m in txt and p.endswith('.cpp'):
+                    found[m].add(p)
+    # second pass so that a macro discovered late still gets all its files
+    for d, _, fs in os.walk(root):
+        for f in fs:
+            if f.endswith('.cpp'):
+                p = os.path.join(d, f)
+                txt = open(p, encoding='utf-8', errors='replace').read()
+                for m in found:
+                    if m in txt:
+                        found[m].add(p)
+    return {m: sorted(v) for m, v in sorted(found.items())}
+
+
+def qt_cflags():
+    mods = ['Qt5Core'] + (['Qt5Network'] if vlib.sh('pkg-config --exists Qt5Network')[0] == 0 else [])
+    return vlib.sh('pkg-config --cflags ' + ' '.join(mods))[1].split()
+
+
+def syntax_check(args):
+    rc, so, se = vlib.sh(['g++', '-std=c++17', '-fsyntax-only', '-fPIC', '-w'] + args, timeout=300)
+    err = [l for l in se.splitlines() if 'error' in l]
+    return rc == 0, (err[0] if err else se.strip().splitlines()[0] if se.strip() else '')[:300]
+
+
+def configuration_leg(chk, repo, all_sources):
+    """for the configuration without feature macros and for every single feature macro: the single header
+    alone and the library sources must both compile or both fail (a feature whose system headers are not
+    installed fails on both sides)"""
+    macros = feature_macros(repo)
+    cf = qt_cflags()
+    tu = tempfile.mkdtemp(prefix='c20_cfg_')
+    open(os.path.join(tu, 'user.cpp'), 'w').write('#include "qtlogger.h"\nint main() { return 0; }\n')
+    all_cpp = sorted(os.path.join(d, f) for d, _, fs in os.walk(os.path.join(repo, 'src', 'qtlogger')) for f in fs if f.endswith('.cpp'))
+    jobs = []
+    for m in [None] + list(macros):
+        D = ['-D' + m] if m else []
+        jobs.append((m, 'header', None, D + ['-I' + repo] + cf + [os.path.join(tu, 'user.cpp')]))
+        files = all_cpp if (all_sources or m is None) else macros[m]
+        if m is None and not all_sources:
+            files = []          # quick tier: the harness builds already compile the plain library
+        for f in files:
+            jobs.append((m, 'library', f, D + ['-DQTLOGGER_STATIC', '-I' + os.path.join(repo, 'src'), '-I' + os.path.join(repo, 'src', 'qtlogger')] + cf + [f]))
+    try:
+        with concurrent.futures.ThreadPoolExecutor(max_workers=min(12 if all_sources else 8, vlib.NCPU)) as ex:
+            outs = list(ex.map(lambda j: syntax_check(j[3]), jobs))
+    finally:
+        shutil.rmtree(tu, ignore_errors=True)
+    table = {}
+    for (m, side, f, _), (ok, err) in zip(jobs, outs):
+        e = table.setdefault(m or '(none)', {'header': None, 'library': True, 'library_files': 0, 'errors': []})
+        if side == 'header':
+            e['header'] = ok
+            if not ok:
+                e['errors'].append('qtlogger.h: ' + err)
+        else:
+            e['library_files'] += 1
+            if not ok:
+                e['library'] = False
+                e['errors'].append(os.path.relpath(f, repo) + ': ' + err)
+    agree = 0
+    for m, e in table.items():
+        if e['library_files'] == 0:
+            e['library'] = None
+        if e['header'] is False and e['library'] is not False:
+            chk.fail('with -D%s the single header qtlogger.h does not compile although the library sources do: %s' % (m, e['errors'][0]),
+                     {'kind': 'header-only-configuration-does-not-compile', 'macro': m, 'header_compiles': False,
+                      'library_sources_compile': e['library'], 'library_files_checked': e['library_files'], 'first_error': e['errors'][0],
+                      'how': 'echo \'#include "qtlogger.h"\' | g++ -std=c++17 -fsyntax-only -D%s -I/repo $(pkg-config --cflags Qt5Core) -x c++ -' % m},
+                     kind='header-only-configuration-does-not-compile')
+        elif e['header'] is True and e['library'] is False:
+            chk.fail('with -D%s the library sources do not compile although the single header does: %s' % (m, e['errors'][0]),
+                     {'kind': 'library-configuration-does-not-compile', 'macro': m, 'header_compiles': True, 'library_sources_compile': False,
+                      'first_error': e['errors'][0]}, kind='library-configuration-does-not-compile')
+        else:
+            agree += 1
+    chk.cov['configurations_compiled'] = {m: {'header': e['header'], 'library': e['library'], 'library_files': e['library_files'],
+                                              'note': (e['errors'][0][:160] if e['errors'] else '')} for m, e in table.items()}
+    chk.cov['configurations_agreeing'] = agree
+    return len(table)
 
 
 # ---- edited copies of the tree: more "programs" for the model <-> generator correspondence -----------
@@ -247,6 +351,8 @@ def run():
                                 'model_equals_generator': gen == mod, 'files_emitted': len(info.get('emitted', []))})
         finally:
             shutil.rmtree(top, ignore_errors=True)
+    n_cfg = configuration_leg(chk, repo, all_sources=thorough)
+    checked += n_cfg
     if thorough:
         # the committed header at least compiles and links a trivial program
         try:
@@ -265,7 +371,9 @@ def run():
                     'rule': 'program = one state of the source tree: the current working tree (three byte comparisons: generator/header, '
                             'model/header, model/generator) plus copies with 1-6 random edits (new headers/sources incl. build and hidden '
                             'directories, duplicate/odd/unresolvable/multi-line include directives, pragma and licence markers, blank runs, '
-                            'deleted includes) for the model/generator comparison; every edited tree differs from the others',
+                            'deleted includes) for the model/generator comparison; every edited tree differs from the others; in addition the '
+                            'header alone and the library sources are compiled (-fsyntax-only) without and with every single feature macro the '
+                            'sources test and must agree (quick: library files that mention the macro; thorough: all library files)',
                     'edits_applied': edit_kinds, 'exhaustive': False})
     chk.samples = samples
     return chk.finish()
@@ -282,6 +390,17 @@ def replay(path):
         shutil.rmtree(top, ignore_errors=True)
     committed = open(os.path.join(vlib.REPO, 'qtlogger.h'), 'rb').read()
     print('now: generator == header:', gen == committed, '| model == header:', mod == committed, '| model == generator:', gen == mod)
+    rr = r['replay'] if isinstance(r['replay'], dict) else {}
+    if rr.get('macro'):
+        m = rr['macro']
+        tu = tempfile.mkdtemp(prefix='c20_cfg_')
+        open(os.path.join(tu, 'user.cpp'), 'w').write('#include "qtlogger.h"\nint main() { return 0; }\n')
+        D = [] if m == '(none)' else ['-D' + m]
+        print('header alone with', D, '->', syntax_check(D + ['-I' + vlib.REPO] + qt_cflags() + [os.path.join(tu, 'user.cpp')]))
+        for f in feature_macros(vlib.REPO).get(m, []):
+            print('library', os.path.relpath(f, vlib.REPO), '->', syntax_check(D + ['-DQTLOGGER_STATIC', '-I' + os.path.join(vlib.REPO, 'src'),
+                  '-I' + os.path.join(vlib.REPO, 'src', 'qtlogger')] + qt_cflags() + [f]))
+        shutil.rmtree(tu, ignore_errors=True)
     for a, b, x, y in ((committed, gen, 'committed_qtlogger_h', 'generated_from_src'), (gen, mod, 'generator', 'model')):
         if a is not None and b is not None and a != b:
             print(json.dumps(first_hunk(a, b, x, y), indent=1))
